@@ -126,6 +126,9 @@ pub struct Profile {
     pub force_shape: Option<usize>,
     /// no array fields at all (C19)
     pub max_array: u32,
+    /// make sure at least one field is writable / readable
+    pub ensure_writable: bool,
+    pub ensure_readable: bool,
 }
 
 impl Profile {
@@ -144,6 +147,8 @@ impl Profile {
             force_kind: None,
             force_shape: None,
             max_array: 16,
+            ensure_writable: true,
+            ensure_readable: true,
         }
     }
 }
@@ -647,6 +652,12 @@ pub fn build_layout_on(p: &Profile, s: &mut Src, bits: u32) -> Layout {
                 _ => Access::RW,
             },
         });
+    }
+    if p.ensure_writable && !l.fields.iter().any(|f| f.access.writable()) && p.access != AccessMode::AllR {
+        l.fields[0].access = Access::RW;
+    }
+    if p.ensure_readable && !l.fields.iter().any(|f| f.access.readable()) {
+        l.fields[0].access = Access::RW;
     }
     if p.w_twin {
         let mut twins = Vec::new();
